@@ -7,8 +7,6 @@ import (
 	"encoding/json"
 	"fmt"
 	"math/big"
-	"os"
-	"strconv"
 	"strings"
 	"testing"
 	"time"
@@ -446,23 +444,10 @@ func c25Run(t *testing.T, unit string, legsOf func(thorough bool) []c25Leg) {
 		r.Set("scenarios", total)
 		r.Set("max_preemption_bound", maxBound)
 	}
-	probeOnly, probeBound := -1, -1
-	if v := os.Getenv("C25_ONLY"); v != "" {
-		probeOnly, _ = strconv.Atoi(v)
-		probeBound, _ = strconv.Atoi(os.Getenv("C25_BOUND"))
-	}
 	idx := 0
 	for _, lg := range legs {
 		for _, sc := range lg.scs {
 			idx++
-			if probeOnly >= 0 {
-				if idx == probeOnly {
-					t0 := time.Now()
-					st := vsched.Explore(opts(probeBound), c25Body(sc, &obs), func(s *vsched.Sched) { evaluate(sc, probeBound, s) })
-					t.Logf("PROBE %s bound=%d execs=%d maxpoints=%d in %v", sc, probeBound, st.Execs, st.MaxPoints, time.Since(t0))
-				}
-				continue
-			}
 			if !r.Mine(idx) || r.Expired() {
 				continue
 			}
